@@ -32,6 +32,10 @@ FIRST_MISSED = {
     "C01-3": "bookkeeping is now queried after every feed (history of look-ups and feeds)",
     "C01-6": "every chunk is handed over in an array of its own that is overwritten right after the call (reused stream buffer)",
     "C06-5": "new sub-check `integer_inputs` (int64/int32 arrays, integer Series, lists, python ints, with and without zeros == float-typed call)",
+    "C09-4": "`lifetime_accumulation`: the same hystereses listed in a second row order (second pass first, interleaved, sorted by P, random) must give the same result",
+    "C09-5": "`p_ram_value`: drawn row labels (duplicates as after pd.concat, shuffled, offset); output index == input index",
+    "C09-6": "`load_safety_factors`: two-column (load_step, node_id) meshes whose second field is up to 1e4 times the load; gamma_L from the first column only",
+    "C15-6": "`vector_call`: load_std arrays mixing exact zeros and positive entries == scalar calls",
     "C02-1": "signal kind `decimal` (values single precision cannot represent, with exact ties)",
     "C02-3": "operator `near_plateau` (neighbour 1 ulp / 1e-12 / 1e-9 away: no plateau)",
     "C03-3": "new sub-check `nan_chunked` (NaN clause combined with chunked feeding)",
